@@ -115,24 +115,45 @@ pub fn run(ctx: &mut Ctx) {
     ctx.run_cases("streams", n, false, |ctx, rng, idx| {
         let nstates = if idx % 11 == 0 { rng.range(1, 3) } else { rng.range(1, 60) };
         let vlen = rng.range(1, 4);
-        let wset = idx % 9;
+        let wset = idx % 10;
         let wins = window_set(wset);
         let nwin = wins.len();
-        let kind = (idx / 9) % 6;
+        let kind = (idx / 10) % 6;
         let is_msd = kind != 0 || rng.chance(0.5);
         let weights = pattern(rng, nstates, kind);
         let thr = if rng.chance(0.2) { 0.5 } else { rng.uniform(0.3, 0.7) };
         let durations: Vec<usize> = (0..nstates).map(|_| if idx % 7 == 0 { 1 } else { rng.range(1, 8) }).collect();
+        // variance structure: independent per entry; or tied across the components of a window
+        // (a shared floor) for the static window only, for every window, or everywhere
+        let tie = (idx / 3) % 5;
+        // voicing weights of "certainly voiced" states may be the non-MSD marker f64::MAX
+        let max_marker = is_msd && idx % 4 == 1;
         let stream: Vec<(Vec<MeanVari>, f64)> = (0..nstates)
             .map(|i| {
+                let shared: Vec<f64> = (0..nwin).map(|_| rng.uniform(0.05, 3.0)).collect();
+                let everywhere = shared[0];
                 let g: Vec<MeanVari> = (0..nwin * vlen)
                     .map(|j| {
                         let w = j / vlen;
                         let mean = if w == 0 { rng.uniform(-3.0, 3.0) } else { rng.uniform(-0.5, 0.5) };
-                        MeanVari(mean, rng.uniform(0.05, 3.0))
+                        let own = rng.uniform(0.05, 3.0);
+                        let vari = match tie {
+                            1 if w == 0 => shared[0],
+                            2 => shared[w],
+                            3 => everywhere,
+                            _ => own,
+                        };
+                        MeanVari(mean, vari)
                     })
                     .collect();
-                (g, if is_msd { weights[i] } else { f64::MAX })
+                let weight = if !is_msd {
+                    f64::MAX
+                } else if max_marker && weights[i] > thr && (i == 0 || rng.chance(0.5)) {
+                    f64::MAX
+                } else {
+                    weights[i]
+                };
+                (g, weight)
             })
             .collect();
         let windows = Windows::new(wins.iter().map(|w| Window::new(w.clone())).collect());
